@@ -199,8 +199,9 @@ func (msg Message) Generate(w io.Writer, settings GenerateSettings) {
 	msg.generateEncodeBebop(ew, settings, fields)
 	msg.generateDecodeBebop(ew, settings, fields)
 	msg.generateSize(ew, settings, fields)
-	isEmpty := len(msg.Fields) == 0
-	writeWrappers(ew, msg.Name, isEmpty, settings)
+	// a message / union without fields still has a wire form (length prefix and terminator / nothing after the
+	// prefix), so unlike an empty struct it must be written and read like any other
+	writeWrappers(ew, msg.Name, false, settings)
 }
 
 func writeMessageFieldUnmarshaller(name string, typ FieldType, w *iohelp.ErrorWriter, settings GenerateSettings, depth int) {
